@@ -326,7 +326,7 @@ def run(tier, seed, replay):
         print("replay: status =", r["status"])
         if r["status"] == "OK":
             print("---- fmt(x)\n%s\n---- fmt(fmt(x))\n%s" % (r["f1"], r["f2"] if not G.failed(r["f2"]) else r["f2"]))
-            for k, w in G.judge_idempotent(r):
+            for k, w in G.judge_idempotent(r, cfg, text):
                 res.violation(k, w, {"cfg": cfg, "text": text, "fmt1": r["f1"], "fmt2": r["f2"]})
         elif r["status"] != "PARSE":
             res.violation("panic", "formatting panics: " + r.get("msg", ""), {"cfg": cfg, "text": text})
@@ -376,7 +376,8 @@ def run(tier, seed, replay):
             distinct.add((text, G.cfg_wire(cfg)))
         if len(res.coverage["samples"]) < 4 and style not in ("orig",) and len(text) < 400:
             res.sample({"cfg": G.cfg_wire(cfg), "tag": tag, "text": text[:400], "fmt": r["f1"][:400]})
-        for k, w in G.judge_idempotent(r):
+        for k, w in G.judge_idempotent(r, cfg, text):
+            res.hist("nonidempotent_histogram", k)
             fails.append((k, w, cfg, text, tag))
     res.coverage["evaluations"] = n_ok + len(acases)
     res.coverage["texts_formatted"] = n_ok
@@ -385,7 +386,10 @@ def run(tier, seed, replay):
                             "changes the text (the input is not already a fixed point); distinct by (text, setting). "
                             "Plus %d aligner API call sequences (%d with >= 2 additions, one non-zero)" % (
                                 len(acases), res.coverage.get("aligner_nontrivial", 0)))
-    res.obligation("fmt(fmt(x)) == fmt(x) on %d parseable (text, setting) cases" % n_ok, not fails)
+    unknown = [f for f in fails if f[0] not in res.known]
+    res.coverage["known_finding_cases"] = len(fails) - len(unknown)
+    res.obligation("fmt(fmt(x)) == fmt(x) on %d parseable (text, setting) cases, outside the classes of KNOWN_FINDINGS.txt"
+                   % n_ok, not unknown)
 
     # ---- 3. the real CLI on a sample
     okc, bins, logc = C.cli_build(bins=("veryl",))
@@ -406,11 +410,15 @@ def run(tier, seed, replay):
 
     # ---- 4. report (shrink each distinct failure kind once)
     def still_fails(key, cfg):
-        def p(t):
-            r = G.run_cases(binary, [(cfg, t)], "i")[0]
-            if key == "panic":
-                return r["status"] in ("PANIC", "CRASH")
-            return r["status"] == "OK" and any(k == key for k, _ in G.judge_idempotent(r))
+        def p(texts):
+            rs = G.run_cases(binary, [(cfg, t) for t in texts], "i")
+            out = []
+            for r, t in zip(rs, texts):
+                if key == "panic":
+                    out.append(r["status"] in ("PANIC", "CRASH"))
+                else:
+                    out.append(r["status"] == "OK" and any(k == key for k, _ in G.judge_idempotent(r, cfg, t)))
+            return out
         return p
 
     seen = set()
@@ -418,15 +426,23 @@ def run(tier, seed, replay):
         if k in seen:
             continue
         seen.add(k)
+        if k in res.known:
+            res.violation(k, w, {})
+            continue
         small = text
         if k in ("not-idempotent", "second-pass-fails", "panic") and tag != "cli":
             tk = G.tokenize(binary, [text])[0]
             if tk:
-                small = G.shrink_text(text, tk, still_fails(k, cfg), budget=200 if tier == "quick" else 600)
+                small = G.shrink_text(text, tk, still_fails(k, cfg), budget=250 if tier == "quick" else 800)
         r = G.run_cases(binary, [(cfg, small)], "i")[0]
-        res.violation(k, w, {"cfg": cfg, "text": small, "original_case": tag,
-                             "fmt1": r.get("f1"), "fmt2": r.get("f2") if not G.failed(r.get("f2")) else str(r.get("f2")),
-                             "failing_cases_in_run": sum(1 for f in fails if f[0] == k)})
+        w2 = w
+        if r["status"] == "OK":
+            for k2, wx in G.judge_idempotent(r, cfg, small):
+                if k2 == k:
+                    w2 = wx
+        res.violation(k, w2, {"cfg": cfg, "text": small, "original_case": tag,
+                              "fmt1": r.get("f1"), "fmt2": r.get("f2") if not G.failed(r.get("f2")) else str(r.get("f2")),
+                              "failing_cases_in_run": sum(1 for f in fails if f[0] == k)})
 
     if amism and not res.violations:
         i = amism[0]
